@@ -71,11 +71,6 @@ Proof.
 Qed.
 
 (* ---------- set_progress: the three cases ---------- *)
-Definition sp_max (p : pbar) (k : Z) : Z := if (0 <? p_max p) && (p_max p <? k) then k else p_max p.
-Definition sp_step (p : pbar) (k : Z) : Z := if (0 <? p_max p) && (p_max p <? k) then k else if k <? 0 then 0 else k.
-Definition sp_state (p : pbar) (k : Z) : pbar :=
-  if 0 <? sp_max p k then set_pct (with_progress p (sp_max p k) (sp_step p k)) (sp_step p k) (sp_max p k)
-  else set_pct (with_progress p (sp_max p k) (sp_step p k)) 0 1.
 Lemma sp_state_fields p k :
   p_step (sp_state p k) = sp_step p k /\ p_max (sp_state p k) = sp_max p k /\ p_quiet (sp_state p k) = p_quiet p /\
   p_ansi (sp_state p k) = p_ansi p /\ p_section (sp_state p k) = p_section p /\ p_last_write (sp_state p k) = p_last_write p /\
@@ -115,7 +110,6 @@ Proof.
   - inversion H; subst. exact H1.
 Qed.
 
-Definition finish_state (p : pbar) : pbar := if p_max p =? 0 then with_progress p (p_step p) (p_step p) else p.
 Lemma finish_state_range p : range p -> range (finish_state p).
 Proof.
   intros Hr. unfold finish_state. destruct (Z.eqb_spec (p_max p) 0); [|exact Hr].
